@@ -51,8 +51,8 @@ StepR(c, dt) ==
   IN [i \in 1..G.nc |-> RSub(R(c[i]), RDiv(RMul(dt, R(Ac[i] - O.rhs[i])), C.vol[i]))]
 AllSteps(P(_, _)) == \A i \in 1..Len(C.inits) : \A j \in 1..Len(C.dts) : P(C.inits[i], StepR(C.inits[i], C.dts[j]))
 
-TransportConserves == Check("TransportConserves", IsK("tr") =>
+TransportConserves == Check("TransportConserves", IsK("tr") => O.ok /\
   AllSteps(LAMBDA c, c2 : REq(RTotal(C.vol, c2), RTotal(C.vol, [i \in 1..Len(c) |-> R(c[i])]))))
-TransportBounds == Check("TransportBounds", IsK("tr") =>
+TransportBounds == Check("TransportBounds", (IsK("tr") /\ O.ok) =>
   AllSteps(LAMBDA c, c2 : \A i \in 1..Len(c) : RLe(R(Min(Range(c))), c2[i]) /\ RLe(c2[i], R(Max(Range(c))))))
 =============================================================================
